@@ -1,7 +1,778 @@
-//! C19 — not built yet.
-use lv_common::Ctx;
+//! C19 / C20 / C21 — one stateful store machine, three invariants, evaluated in lock-step on
+//! `InMemoryStore` and `RedbStore::in_memory()`.
+//!
+//!  * C19: after every operation both stores' observable state and returned error kinds equal an
+//!    abstract model's.
+//!  * C20: an operation that returned an error leaves every observable query result unchanged
+//!    (snapshot of the store itself before/after — independent of the model), and the corrected
+//!    batch is insertable afterwards.
+//!  * C21: in every reached state consecutive stored headers are hash-linked adjacent successors
+//!    and lookup by hash returns the same header at its height.
 
-pub fn run(_ctx: &mut Ctx) {
-    eprintln!("C19: check not built yet");
-    std::process::exit(2);
+use std::collections::{BTreeMap, BTreeSet};
+
+use celestia_types::ExtendedHeader;
+use celestia_types::hash::Hash;
+use cid::Cid;
+use lumina_node::store::{InMemoryStore, RedbStore, Store, StoreError, StoreInsertionError};
+use lv_common::prelude::*;
+use lv_gen::chain::{Chain, ChainSpec, build_chain, build_fork, chain_strategy};
+
+#[derive(Clone, Debug, Serialize, Deserialize)]
+pub struct ForkSpec {
+    pub from: u16,
+    pub len: u8,
+    pub salt: u8,
+    pub foreign: bool,
+}
+
+#[derive(Clone, Copy, Debug, Serialize, Deserialize, PartialEq)]
+pub enum Source {
+    Honest,
+    Fork(u8),
+}
+
+#[derive(Clone, Debug, Serialize, Deserialize)]
+pub enum Place {
+    /// directly above the head
+    AboveHead,
+    /// new head range above a gap of `gap` heights
+    AboveGap { gap: u8 },
+    /// below gap `g`-th (counted from the top): adjacent to the range below it
+    GapFromBelow { g: u16 },
+    /// adjacent to the range above the gap
+    GapFromAbove { g: u16 },
+    /// fill a gap exactly (len ignored)
+    Bridge { g: u16 },
+    /// anywhere
+    At { start: u16 },
+}
+
+#[derive(Clone, Debug, Serialize, Deserialize)]
+pub enum Malform {
+    None,
+    SwapTwo { i: u16, j: u16 },
+    DropOne { i: u16 },
+    Empty,
+    /// header j carries the hash of a stored header (and header j+1 is re-linked to it so that the
+    /// internal adjacency check passes); only meaningful when something is stored
+    DupHash { j: u16, of: u16 },
+    /// source switches to a fork in the middle of the batch
+    SpliceFork { at: u16, fork: u8 },
+}
+
+#[derive(Clone, Debug, Serialize, Deserialize)]
+pub enum Op {
+    Insert { place: Place, len: u8, src: Source, mal: Malform },
+    Remove { h: u16, stored_bias: bool },
+    MarkSampled { h: u16, stored_bias: bool },
+    UpdateMeta { h: u16, stored_bias: bool, cids: Vec<u8> },
+}
+
+#[derive(Clone, Debug, Serialize, Deserialize)]
+pub struct Case {
+    pub chain: ChainSpec,
+    pub forks: Vec<ForkSpec>,
+    pub ops: Vec<Op>,
+}
+
+fn place_strategy() -> impl Strategy<Value = Place> {
+    prop_oneof![
+        4 => Just(Place::AboveHead),
+        2 => (1u8..6).prop_map(|gap| Place::AboveGap { gap }),
+        2 => any::<u16>().prop_map(|g| Place::GapFromBelow { g }),
+        3 => any::<u16>().prop_map(|g| Place::GapFromAbove { g }),
+        2 => any::<u16>().prop_map(|g| Place::Bridge { g }),
+        2 => any::<u16>().prop_map(|start| Place::At { start }),
+    ]
+}
+
+fn malform_strategy() -> impl Strategy<Value = Malform> {
+    prop_oneof![
+        10 => Just(Malform::None),
+        1 => (any::<u16>(), any::<u16>()).prop_map(|(i, j)| Malform::SwapTwo { i, j }),
+        1 => any::<u16>().prop_map(|i| Malform::DropOne { i }),
+        1 => Just(Malform::Empty),
+        3 => (any::<u16>(), any::<u16>()).prop_map(|(j, of)| Malform::DupHash { j, of }),
+        1 => (any::<u16>(), 0u8..3).prop_map(|(at, fork)| Malform::SpliceFork { at, fork }),
+    ]
+}
+
+pub fn op_strategy() -> impl Strategy<Value = Op> {
+    prop_oneof![
+        8 => (place_strategy(), 1u8..12, prop_oneof![5 => Just(Source::Honest), 1 => (0u8..3).prop_map(Source::Fork)], malform_strategy())
+            .prop_map(|(place, len, src, mal)| Op::Insert { place, len, src, mal }),
+        3 => (any::<u16>(), any::<bool>()).prop_map(|(h, stored_bias)| Op::Remove { h, stored_bias }),
+        2 => (any::<u16>(), any::<bool>()).prop_map(|(h, stored_bias)| Op::MarkSampled { h, stored_bias }),
+        2 => (any::<u16>(), any::<bool>(), prop::collection::vec(0u8..12, 0..5)).prop_map(|(h, stored_bias, cids)| Op::UpdateMeta { h, stored_bias, cids }),
+    ]
+}
+
+pub fn case_strategy(max_len: usize, max_ops: usize) -> impl Strategy<Value = Case> {
+    (
+        chain_strategy(20..=max_len, 3, false, true),
+        prop::collection::vec((any::<u16>(), 1u8..20, 1u8..4, any::<bool>()).prop_map(|(from, len, salt, foreign)| ForkSpec { from, len, salt, foreign }), 1..=3),
+        prop::collection::vec(op_strategy(), 10..=max_ops),
+    )
+        .prop_map(|(mut chain, forks, ops)| {
+            chain.start_height = 1;
+            Case { chain, forks, ops }
+        })
+}
+
+#[derive(Clone, Copy, Debug, PartialEq, Eq)]
+pub enum Kind {
+    NotFound,
+    HeadersVerification,
+    NeighborsVerification,
+    Constraints,
+    HashExists,
+    Other,
+}
+
+pub fn kind_of(e: &StoreError) -> Kind {
+    match e {
+        StoreError::NotFound => Kind::NotFound,
+        StoreError::InsertionFailed(StoreInsertionError::HeadersVerificationFailed(_)) => Kind::HeadersVerification,
+        StoreError::InsertionFailed(StoreInsertionError::NeighborsVerificationFailed(_)) => Kind::NeighborsVerification,
+        StoreError::InsertionFailed(StoreInsertionError::ConstraintsNotMet(_)) => Kind::Constraints,
+        StoreError::InsertionFailed(StoreInsertionError::HashExists(_)) => Kind::HashExists,
+        _ => Kind::Other,
+    }
+}
+
+pub fn cid_of(i: u8) -> Cid {
+    let digest = lv_gen::refs::sha256(&[b"cid", &[i]]);
+    let mh = multihash::Multihash::<64>::wrap(0x12, &digest).unwrap();
+    Cid::new_v1(0x55, mh)
+}
+
+/// reference adjacency (what `verify` demands of an adjacent successor), written from the property text of C02
+pub fn ref_adjacent(a: &ExtendedHeader, b: &ExtendedHeader) -> bool {
+    b.height() == a.height() + 1
+        && a.chain_id() == b.chain_id()
+        && b.time() > a.time()
+        && b.header.validators_hash == a.header.next_validators_hash
+        && b.last_header_hash() == a.hash()
+}
+
+#[derive(Default, Clone)]
+pub struct Model {
+    pub headers: BTreeMap<u64, ExtendedHeader>,
+    pub sampled: BTreeSet<u64>,
+    pub pruned: BTreeSet<u64>,
+    pub meta: BTreeMap<u64, BTreeSet<Cid>>,
+}
+
+impl Model {
+    pub fn head(&self) -> Option<u64> {
+        self.headers.keys().next_back().copied()
+    }
+    pub fn ranges(set: impl Iterator<Item = u64>) -> Vec<(u64, u64)> {
+        let mut out: Vec<(u64, u64)> = Vec::new();
+        for h in set {
+            match out.last_mut() {
+                Some((_, e)) if *e + 1 == h => *e = h,
+                _ => out.push((h, h)),
+            }
+        }
+        out
+    }
+    pub fn stored_ranges(&self) -> Vec<(u64, u64)> {
+        Self::ranges(self.headers.keys().copied())
+    }
+    pub fn insert(&mut self, batch: &[ExtendedHeader]) -> Result<(), Kind> {
+        if batch.is_empty() {
+            return Ok(());
+        }
+        for w in batch.windows(2) {
+            if !ref_adjacent(&w[0], &w[1]) {
+                return Err(Kind::HeadersVerification);
+            }
+        }
+        let a = batch[0].height();
+        let b = batch[batch.len() - 1].height();
+        if a == 0 || a > b {
+            return Err(Kind::Constraints);
+        }
+        if self.headers.range(a..=b).next().is_some() {
+            return Err(Kind::Constraints);
+        }
+        let below = a > 1 && self.headers.contains_key(&(a - 1));
+        let above = self.headers.contains_key(&(b + 1));
+        if let Some(head) = self.head() {
+            if !(a > head || below || above) {
+                return Err(Kind::Constraints);
+            }
+        }
+        if below && !ref_adjacent(&self.headers[&(a - 1)], &batch[0]) {
+            return Err(Kind::NeighborsVerification);
+        }
+        if above && !ref_adjacent(&batch[batch.len() - 1], &self.headers[&(b + 1)]) {
+            return Err(Kind::NeighborsVerification);
+        }
+        let mut hashes: BTreeSet<Vec<u8>> = self.headers.values().map(|h| h.hash().as_bytes().to_vec()).collect();
+        for h in batch {
+            if !hashes.insert(h.hash().as_bytes().to_vec()) {
+                return Err(Kind::HashExists);
+            }
+        }
+        for h in batch {
+            self.headers.insert(h.height(), h.clone());
+            self.sampled.remove(&h.height());
+            self.pruned.remove(&h.height());
+        }
+        Ok(())
+    }
+    pub fn remove(&mut self, h: u64) -> Result<(), Kind> {
+        if self.headers.remove(&h).is_none() {
+            return Err(Kind::NotFound);
+        }
+        self.sampled.remove(&h);
+        self.meta.remove(&h);
+        self.pruned.insert(h);
+        Ok(())
+    }
+    pub fn mark(&mut self, h: u64) -> Result<(), Kind> {
+        if !self.headers.contains_key(&h) {
+            return Err(Kind::NotFound);
+        }
+        self.sampled.insert(h);
+        Ok(())
+    }
+    pub fn update_meta(&mut self, h: u64, cids: &[Cid]) -> Result<(), Kind> {
+        if !self.headers.contains_key(&h) {
+            return Err(Kind::NotFound);
+        }
+        self.meta.entry(h).or_default().extend(cids.iter().cloned());
+        Ok(())
+    }
+}
+
+/// Everything observable about a store over the universe, as a comparable value.
+#[derive(Clone, Debug, PartialEq)]
+pub struct Snapshot {
+    stored: Vec<(u64, u64)>,
+    sampled: Vec<(u64, u64)>,
+    pruned: Vec<(u64, u64)>,
+    head: Option<Vec<u8>>,
+    head_height: Option<u64>,
+    /// per universe height: (has_at, get_by_height hash, meta)
+    by_height: Vec<(u64, bool, Option<Vec<u8>>, Option<Option<BTreeSet<Cid>>>)>,
+    /// per universe hash: (has, get_by_hash height)
+    by_hash: Vec<(Vec<u8>, bool, Option<u64>)>,
+}
+
+pub fn ranges_vec(r: &lumina_node::store::BlockRanges) -> Vec<(u64, u64)> {
+    let v: &[std::ops::RangeInclusive<u64>] = r.as_ref();
+    v.iter().map(|x| (*x.start(), *x.end())).collect()
+}
+
+pub async fn snapshot<S: Store>(s: &S, heights: &[u64], hashes: &[Hash]) -> Snapshot {
+    let mut by_height = Vec::new();
+    for &h in heights {
+        let has = s.has_at(h).await;
+        let got = s.get_by_height(h).await.ok().map(|x| {
+            assert_eq!(x.height(), h, "get_by_height returned another height");
+            x.hash().as_bytes().to_vec()
+        });
+        let meta = s.get_sampling_metadata(h).await.ok().map(|m| m.map(|m| m.cids.into_iter().collect::<BTreeSet<_>>()));
+        by_height.push((h, has, got, meta));
+    }
+    let mut by_hash = Vec::new();
+    for hh in hashes {
+        let has = s.has(hh).await;
+        let got = s.get_by_hash(hh).await.ok().map(|x| x.height());
+        by_hash.push((hh.as_bytes().to_vec(), has, got));
+    }
+    Snapshot {
+        stored: ranges_vec(&s.get_stored_header_ranges().await.unwrap()),
+        sampled: ranges_vec(&s.get_sampled_ranges().await.unwrap()),
+        pruned: ranges_vec(&s.get_pruned_ranges().await.unwrap()),
+        head: s.get_head().await.ok().map(|h| h.hash().as_bytes().to_vec()),
+        head_height: s.head_height().await.ok(),
+        by_height,
+        by_hash,
+    }
+}
+
+pub fn model_snapshot(m: &Model, heights: &[u64], hashes: &[Hash]) -> Snapshot {
+    let by_height = heights
+        .iter()
+        .map(|&h| {
+            let hdr = m.headers.get(&h);
+            (
+                h,
+                hdr.is_some(),
+                hdr.map(|x| x.hash().as_bytes().to_vec()),
+                hdr.map(|_| m.meta.get(&h).cloned()),
+            )
+        })
+        .collect();
+    let by_hash = hashes
+        .iter()
+        .map(|hh| {
+            let found = m.headers.values().find(|x| x.hash() == *hh).map(|x| x.height());
+            (hh.as_bytes().to_vec(), found.is_some(), found)
+        })
+        .collect();
+    Snapshot {
+        stored: m.stored_ranges(),
+        sampled: Model::ranges(m.sampled.iter().copied()),
+        pruned: Model::ranges(m.pruned.iter().copied()),
+        head: m.head().map(|h| m.headers[&h].hash().as_bytes().to_vec()),
+        head_height: m.head(),
+        by_height,
+        by_hash,
+    }
+}
+
+pub fn diff(a: &Snapshot, b: &Snapshot) -> String {
+    if a.stored != b.stored {
+        return format!("stored ranges {:?} vs {:?}", a.stored, b.stored);
+    }
+    if a.sampled != b.sampled {
+        return format!("sampled ranges {:?} vs {:?}", a.sampled, b.sampled);
+    }
+    if a.pruned != b.pruned {
+        return format!("pruned ranges {:?} vs {:?}", a.pruned, b.pruned);
+    }
+    if a.head_height != b.head_height || a.head != b.head {
+        return format!("head {:?} vs {:?}", a.head_height, b.head_height);
+    }
+    for (x, y) in a.by_height.iter().zip(&b.by_height) {
+        if x != y {
+            return format!(
+                "height {}: has_at {} vs {}, get_by_height {:?} vs {:?}, metadata {:?} vs {:?}",
+                x.0,
+                x.1,
+                y.1,
+                x.2.as_ref().map(hex::encode),
+                y.2.as_ref().map(hex::encode),
+                x.3.as_ref().map(|m| m.as_ref().map(|s| s.len())),
+                y.3.as_ref().map(|m| m.as_ref().map(|s| s.len()))
+            );
+        }
+    }
+    for (x, y) in a.by_hash.iter().zip(&b.by_hash) {
+        if x != y {
+            return format!("hash {}: has {} vs {}, get_by_hash height {:?} vs {:?}", hex::encode(&x.0), x.1, y.1, x.2, y.2);
+        }
+    }
+    "no difference".into()
+}
+
+pub struct Universe {
+    pub honest: Chain,
+    pub forks: Vec<Vec<ExtendedHeader>>,
+    pub heights: Vec<u64>,
+    pub hashes: Vec<Hash>,
+}
+
+impl Universe {
+    pub fn header(&self, src: Source, h: u64) -> Option<ExtendedHeader> {
+        match src {
+            Source::Honest => self.honest.headers.get((h as usize).checked_sub(1)?).cloned(),
+            Source::Fork(k) => {
+                let f = self.forks.get(k as usize % self.forks.len().max(1))?;
+                f.iter().find(|x| x.height() == h).cloned().or_else(|| self.honest.headers.get((h as usize).checked_sub(1)?).cloned())
+            }
+        }
+    }
+}
+
+pub fn build_universe(case: &Case) -> Universe {
+    let honest = build_chain(&case.chain);
+    let n = honest.headers.len();
+    let forks: Vec<Vec<ExtendedHeader>> = case
+        .forks
+        .iter()
+        .map(|f| {
+            let from = 1 + pick(f.from, n - 1);
+            build_fork(&honest, from, f.len as usize, f.salt as u64, f.foreign)
+        })
+        .collect();
+    let heights: Vec<u64> = (0..=(n as u64 + 2)).collect();
+    let mut hashes: Vec<Hash> = honest.headers.iter().map(|h| h.hash()).collect();
+    for f in &forks {
+        hashes.extend(f.iter().map(|h| h.hash()));
+    }
+    Universe { honest, forks, heights, hashes }
+}
+
+/// gaps between stored ranges (and below the lowest), top first: (lo, hi) inclusive missing heights
+pub fn gaps(m: &Model) -> Vec<(u64, u64)> {
+    let r = m.stored_ranges();
+    let mut out = Vec::new();
+    for w in r.windows(2).rev() {
+        out.push((w[0].1 + 1, w[1].0 - 1));
+    }
+    if let Some(first) = r.first() {
+        if first.0 > 1 {
+            out.push((1, first.0 - 1));
+        }
+    }
+    out
+}
+
+pub fn resolve_batch(u: &Universe, m: &Model, place: &Place, len: u8, src: Source, mal: &Malform, obs: &mut Obs) -> Vec<ExtendedHeader> {
+    let n = u.honest.headers.len() as u64;
+    let len = len as u64;
+    let head = m.head().unwrap_or(0);
+    let gs = gaps(m);
+    let (a, b) = match place {
+        Place::AboveHead => (head + 1, head + len),
+        Place::AboveGap { gap } => (head + 1 + *gap as u64, head + *gap as u64 + len),
+        Place::GapFromBelow { g } if !gs.is_empty() => {
+            let (lo, hi) = gs[pick(*g, gs.len())];
+            (lo, (lo + len - 1).min(hi))
+        }
+        Place::GapFromAbove { g } if !gs.is_empty() => {
+            let (lo, hi) = gs[pick(*g, gs.len())];
+            (hi.saturating_sub(len - 1).max(lo), hi)
+        }
+        Place::Bridge { g } if !gs.is_empty() => {
+            let (lo, hi) = gs[pick(*g, gs.len())];
+            (lo, hi.min(lo + 40))
+        }
+        Place::At { start } => {
+            let s = 1 + pick(*start, n as usize) as u64;
+            (s, s + len - 1)
+        }
+        _ => (head + 1, head + len),
+    };
+    let b = b.min(n);
+    let mut batch: Vec<ExtendedHeader> = (a..=b).filter_map(|h| u.header(src, h)).collect();
+    match mal {
+        Malform::None => {}
+        Malform::SwapTwo { i, j } => {
+            if batch.len() >= 2 {
+                let (x, y) = (pick(*i, batch.len()), pick(*j, batch.len()));
+                batch.swap(x, y);
+                obs.label("malformed-batch");
+            }
+        }
+        Malform::DropOne { i } => {
+            if batch.len() >= 3 {
+                let x = 1 + pick(*i, batch.len() - 2);
+                batch.remove(x);
+                obs.label("malformed-batch");
+            }
+        }
+        Malform::Empty => batch.clear(),
+        Malform::DupHash { j, of } => {
+            let stored: Vec<&ExtendedHeader> = m.headers.values().collect();
+            if !stored.is_empty() && !batch.is_empty() {
+                let j = pick(*j, batch.len());
+                let victim = stored[pick(*of, stored.len())].hash();
+                batch[j].commit.block_id.hash = victim;
+                if j + 1 < batch.len() {
+                    if let Some(id) = batch[j + 1].header.last_block_id.as_mut() {
+                        id.hash = victim;
+                    }
+                }
+                obs.label("dup-hash-batch");
+                if j >= 1 {
+                    obs.label("dup-hash-mid-batch");
+                }
+            }
+        }
+        Malform::SpliceFork { at, fork } => {
+            if batch.len() >= 2 {
+                let at = 1 + pick(*at, batch.len() - 1);
+                for x in batch.iter_mut().skip(at) {
+                    if let Some(f) = u.header(Source::Fork(*fork), x.height()) {
+                        *x = f;
+                    }
+                }
+            }
+        }
+    }
+    batch
+}
+
+async fn check_links<S: Store>(s: &S, name: &str, obs: &mut Obs<'_>) -> Result<(), Failure> {
+    let ranges = ranges_vec(&s.get_stored_header_ranges().await.map_err(|e| Failure::new("C21:ranges-unreadable", e.to_string()))?);
+    for (a, b) in ranges {
+        let mut prev: Option<ExtendedHeader> = None;
+        for h in a..=b {
+            let cur = match s.get_by_height(h).await {
+                Ok(c) => c,
+                Err(e) => {
+                    obs.fail("C21:stored-height-unreadable", format!("{name}: height {h} is in stored ranges but get_by_height failed: {e}"))?;
+                    prev = None;
+                    continue;
+                }
+            };
+            match s.get_by_hash(&cur.hash()).await {
+                Ok(x) if x == cur && x.height() == h => {}
+                other => obs.fail(
+                    "C21:hash-lookup-mismatch",
+                    format!("{name}: get_by_hash(hash of stored header {h}) returned {:?}", other.map(|x| x.height()).map_err(|e| e.to_string())),
+                )?,
+            }
+            if let Some(p) = &prev {
+                obs.eval(None);
+                if let Err(e) = p.verify_adjacent(&cur) {
+                    obs.fail("C21:neighbours-not-linked", format!("{name}: stored headers {} and {h} do not verify as adjacent: {e}", h - 1))?;
+                }
+                if !ref_adjacent(p, &cur) {
+                    obs.fail("C21:neighbours-not-linked", format!("{name}: stored headers {} and {h} are not hash-linked (reference)", h - 1))?;
+                }
+            }
+            prev = Some(cur);
+        }
+    }
+    Ok(())
+}
+
+async fn run_case(case: &Case, prop: &str, obs: &mut Obs<'_>) -> Result<(), Failure> {
+    let u = build_universe(case);
+    let n = u.honest.headers.len();
+
+    let mem = InMemoryStore::new();
+    let redb = RedbStore::in_memory().await.map_err(|e| Failure::new("harness:redb-open", e.to_string()))?;
+    let mut model = Model::default();
+    let mut removed_ever: BTreeSet<u64> = BTreeSet::new();
+
+    macro_rules! both {
+        ($call:ident ( $($arg:expr),* )) => {{
+            let a = mem.$call($($arg.clone()),*).await;
+            let b = redb.$call($($arg.clone()),*).await;
+            (a, b)
+        }};
+    }
+
+    for (step, op) in case.ops.iter().enumerate() {
+        let stored: Vec<u64> = model.headers.keys().copied().collect();
+        let pick_h = |sel: u16, bias: bool| -> u64 {
+            if bias && !stored.is_empty() { stored[pick(sel, stored.len())] } else { pick(sel, n + 2) as u64 }
+        };
+        // what will the model say?
+        let mut trial = model.clone();
+        enum Conc {
+            Insert(Vec<ExtendedHeader>),
+            Remove(u64),
+            Mark(u64),
+            Meta(u64, Vec<Cid>),
+        }
+        let conc = match op {
+            Op::Insert { place, len, src, mal } => Conc::Insert(resolve_batch(&u, &model, place, *len, *src, mal, obs)),
+            Op::Remove { h, stored_bias } => Conc::Remove(pick_h(*h, *stored_bias)),
+            Op::MarkSampled { h, stored_bias } => Conc::Mark(pick_h(*h, *stored_bias)),
+            Op::UpdateMeta { h, stored_bias, cids } => Conc::Meta(pick_h(*h, *stored_bias), cids.iter().map(|c| cid_of(*c)).collect()),
+        };
+        let expected = match &conc {
+            Conc::Insert(b) => trial.insert(b),
+            Conc::Remove(h) => trial.remove(*h),
+            Conc::Mark(h) => trial.mark(*h),
+            Conc::Meta(h, c) => trial.update_meta(*h, c),
+        };
+        // C20: snapshot of the stores themselves before an operation expected to fail
+        let before = if prop == "C20" && expected.is_err() {
+            Some((snapshot(&mem, &u.heights, &u.hashes).await, snapshot(&redb, &u.heights, &u.hashes).await))
+        } else {
+            None
+        };
+        let (ra, rb) = match &conc {
+            Conc::Insert(b) => both!(insert(b)),
+            Conc::Remove(h) => both!(remove_height(*h)),
+            Conc::Mark(h) => both!(mark_as_sampled(*h)),
+            Conc::Meta(h, c) => both!(update_sampling_metadata(*h, c)),
+        };
+        let desc = match &conc {
+            Conc::Insert(b) => format!(
+                "step {step}: insert heights {:?} (stored before: {:?})",
+                b.iter().map(|h| h.height()).collect::<Vec<_>>(),
+                model.stored_ranges()
+            ),
+            Conc::Remove(h) => format!("step {step}: remove_height({h})"),
+            Conc::Mark(h) => format!("step {step}: mark_as_sampled({h})"),
+            Conc::Meta(h, c) => format!("step {step}: update_sampling_metadata({h}, {} cids)", c.len()),
+        };
+        // classification
+        let digest = digest_bytes(format!("{desc}{:?}", expected).as_bytes());
+        let nontrivial = match (&conc, &expected) {
+            (Conc::Insert(b), Ok(())) => !b.is_empty() && b.iter().any(|h| removed_ever.contains(&h.height())),
+            (Conc::Insert(_), Err(_)) => true,
+            (Conc::Remove(_), Ok(())) => true,
+            _ => false,
+        };
+        obs.eval(nontrivial.then_some(digest));
+        match (&conc, &expected) {
+            (Conc::Insert(b), Ok(())) => {
+                if !b.is_empty() {
+                    let a = b[0].height();
+                    let z = b[b.len() - 1].height();
+                    let below = model.headers.contains_key(&(a.wrapping_sub(1)));
+                    let above = model.headers.contains_key(&(z + 1));
+                    if below && above {
+                        obs.label("insert-bridges-gap");
+                    } else if above {
+                        obs.label("insert-gap-fill-from-above");
+                    } else if below {
+                        obs.label("insert-extends-range");
+                    } else {
+                        obs.label("insert-new-head-range");
+                    }
+                    if b.iter().any(|h| removed_ever.contains(&h.height())) {
+                        obs.label("reinsert-after-removal");
+                    }
+                }
+            }
+            (Conc::Insert(_), Err(k)) => obs.label(match k {
+                Kind::HeadersVerification => "rejected-headers-verification",
+                Kind::NeighborsVerification => "rejected-neighbors-verification",
+                Kind::Constraints => "rejected-constraints",
+                Kind::HashExists => "rejected-hash-exists",
+                _ => "rejected-other",
+            }),
+            (Conc::Remove(_), Ok(())) => obs.label("removal"),
+            (_, Err(_)) => obs.label("op-on-missing-height"),
+            _ => obs.label("mark-or-meta"),
+        }
+
+        if prop == "C19" {
+            for (name, r) in [("InMemoryStore", &ra), ("RedbStore", &rb)] {
+                let got = r.as_ref().map(|_| ()).map_err(kind_of);
+                if got != expected {
+                    obs.fail(
+                        "C19:result-differs-from-model",
+                        format!("{name}: {desc}: returned {:?} ({:?}), model says {expected:?}", got, r.as_ref().err().map(|e| e.to_string())),
+                    )?;
+                }
+            }
+        }
+        if let Some((ba, bb)) = before {
+            // C20: error => unchanged (only judged when the store itself returned an error)
+            if ra.is_err() {
+                let after = snapshot(&mem, &u.heights, &u.hashes).await;
+                if after != ba {
+                    obs.fail("C20:state-changed-by-failed-op", format!("InMemoryStore: {desc} returned {:?} but changed the store: {}", ra.as_ref().err().map(|e| e.to_string()), diff(&ba, &after)))?;
+                }
+            }
+            if rb.is_err() {
+                let after = snapshot(&redb, &u.heights, &u.hashes).await;
+                if after != bb {
+                    obs.fail("C20:state-changed-by-failed-op", format!("RedbStore: {desc} returned {:?} but changed the store: {}", rb.as_ref().err().map(|e| e.to_string()), diff(&bb, &after)))?;
+                }
+            }
+            // the corrected batch is insertable afterwards: honest headers for the same heights,
+            // whenever the model admits them
+            if let Conc::Insert(b) = &conc {
+                if !b.is_empty() && ra.is_err() && rb.is_err() {
+                    let lo = b.iter().map(|h| h.height()).min().unwrap();
+                    let hi = b.iter().map(|h| h.height()).max().unwrap();
+                    let fixed: Vec<ExtendedHeader> = (lo..=hi).filter_map(|h| u.header(Source::Honest, h)).collect();
+                    let mut t2 = model.clone();
+                    if t2.insert(&fixed).is_ok() && !fixed.is_empty() {
+                        obs.label("corrected-batch-reinserted");
+                        let (xa, xb) = both!(insert(fixed));
+                        if let Err(e) = &xa {
+                            obs.fail("C20:corrected-batch-not-insertable", format!("InMemoryStore: after rejected {desc}, inserting the corrected batch {lo}..={hi} failed: {e}"))?;
+                        }
+                        if let Err(e) = &xb {
+                            obs.fail("C20:corrected-batch-not-insertable", format!("RedbStore: after rejected {desc}, inserting the corrected batch {lo}..={hi} failed: {e}"))?;
+                        }
+                        if xa.is_ok() && xb.is_ok() {
+                            model = t2;
+                            continue;
+                        } else {
+                            return Ok(()); // stores diverged under a known finding; stop this history
+                        }
+                    }
+                }
+            }
+        }
+        if expected.is_ok() {
+            if let Conc::Remove(h) = &conc {
+                removed_ever.insert(*h);
+            }
+            model = trial;
+        }
+        // a store that disagrees with the model about success makes the rest of the history meaningless
+        if ra.is_ok() != expected.is_ok() || rb.is_ok() != expected.is_ok() {
+            if prop != "C19" {
+                obs.note(format!("history abandoned at {desc}: store result differs from the model (judged by C19)"));
+            }
+            return Ok(());
+        }
+
+        let full = expected.is_err() || step % 8 == 7 || step + 1 == case.ops.len();
+        if prop == "C19" && full {
+            let want = model_snapshot(&model, &u.heights, &u.hashes);
+            let a = snapshot(&mem, &u.heights, &u.hashes).await;
+            if a != want {
+                obs.fail("C19:state-differs-from-model", format!("InMemoryStore after {desc}: {}", diff(&a, &want)))?;
+            }
+            let b = snapshot(&redb, &u.heights, &u.hashes).await;
+            if b != want {
+                obs.fail("C19:state-differs-from-model", format!("RedbStore after {desc}: {}", diff(&b, &want)))?;
+            }
+            // get_range over a few windows
+            if let Some(head) = model.head() {
+                for (lo, hi) in [(1u64, head), (head.saturating_sub(3).max(1), head), (1, 1.max(head / 2))] {
+                    let want: Option<Vec<u64>> = (lo..=hi).map(|h| model.headers.get(&h).map(|x| x.height())).collect();
+                    let ga = mem.get_range(lo..=hi).await.ok().map(|v| v.iter().map(|h| h.height()).collect::<Vec<_>>());
+                    let gb = redb.get_range(lo..=hi).await.ok().map(|v| v.iter().map(|h| h.height()).collect::<Vec<_>>());
+                    if ga != want || gb != want {
+                        obs.fail("C19:get-range-differs", format!("after {desc}: get_range({lo}..={hi}) mem {ga:?} redb {gb:?} model {want:?}"))?;
+                    }
+                }
+            }
+        } else if prop == "C19" {
+            // light comparison: the three range sets and the head
+            let want = (model.stored_ranges(), Model::ranges(model.sampled.iter().copied()), Model::ranges(model.pruned.iter().copied()));
+            let ga = (
+                ranges_vec(&mem.get_stored_header_ranges().await.unwrap()),
+                ranges_vec(&mem.get_sampled_ranges().await.unwrap()),
+                ranges_vec(&mem.get_pruned_ranges().await.unwrap()),
+            );
+            let gb = (
+                ranges_vec(&redb.get_stored_header_ranges().await.unwrap()),
+                ranges_vec(&redb.get_sampled_ranges().await.unwrap()),
+                ranges_vec(&redb.get_pruned_ranges().await.unwrap()),
+            );
+            if ga != want {
+                obs.fail("C19:state-differs-from-model", format!("InMemoryStore after {desc}: ranges {ga:?} vs model {want:?}"))?;
+            }
+            if gb != want {
+                obs.fail("C19:state-differs-from-model", format!("RedbStore after {desc}: ranges {gb:?} vs model {want:?}"))?;
+            }
+        }
+        if prop == "C21" && (full || matches!(conc, Conc::Insert(_))) {
+            check_links(&mem, "InMemoryStore", obs).await?;
+            check_links(&redb, "RedbStore", obs).await?;
+        }
+    }
+    let _ = redb.close().await;
+    Ok(())
+}
+
+pub fn run(ctx: &mut Ctx) {
+    let prop = ctx.prop.clone();
+    ctx.assume("stored headers are validated headers from generated chains (every production caller validates before insert); forged-hash headers are only offered in batches that must be rejected");
+    ctx.assume("the reference insert rule uses the harness' own adjacency predicate (hash link, next-validators hash, chain id, strictly increasing time)");
+    ctx.assume("sampling-metadata CIDs are compared as sets (the property says 'accumulates every added CID')");
+    ctx.essential(&[
+        "rejected-headers-verification",
+        "rejected-neighbors-verification",
+        "rejected-constraints",
+        "rejected-hash-exists",
+        "dup-hash-mid-batch",
+        "reinsert-after-removal",
+        "insert-bridges-gap",
+        "insert-gap-fill-from-above",
+    ]);
+    ctx.set_shrink_iters(300);
+    let (max_len, max_ops, cases) = match (ctx.tier, prop.as_str()) {
+        (Tier::Quick, _) => (60, 80, 480),
+        (Tier::Thorough, _) => (200, 300, 3000),
+    };
+    let rule = "history = generated universe (honest chain with validator rotation + 1..3 forks) and 10..N ops (insert batches resolved against the current state: above head, above a gap, gap fill from below/above, exact bridge, arbitrary; honest or fork source; swapped/dropped/empty/duplicate-hash/fork-spliced batches; remove; mark sampled; metadata update). One evaluation per op. Non-trivial = rejected insert, removal, or re-insertion of a previously removed height (distinct by op description + expected result)";
+    ctx.proptest("store-machine", rule, cases, move || case_strategy(max_len, max_ops), move |case, obs| {
+        let rt = tokio::runtime::Builder::new_current_thread().enable_all().build().unwrap();
+        let p = prop.clone();
+        rt.block_on(run_case(case, &p, obs))
+    });
 }
